@@ -326,4 +326,144 @@ theorem tableCodec_roundTrip (tbl : List Nat) : (tableCodec tbl).RoundTrip := by
   show tbl.getD (tbl.idxOf c) undef = c
   exact (key c hc).2.1
 
+/-! ### predicates of the losslessness statement, table facts, reader rules on safe numbers -/
+
+def isC1 (c : Nat) : Bool := 128 ≤ c && c ≤ 159
+def isSurrogate (c : Nat) : Bool := 0xD800 ≤ c && c ≤ 0xDFFF
+/-- U+FDD0–U+FDEF and the last two code points of every plane -/
+def isNonchar (c : Nat) : Bool := (0xFDD0 ≤ c && c ≤ 0xFDEF) || (c % 0x10000 ≥ 0xFFFE)
+
+/-- Text survives unless it holds a C1 control the target cannot carry (decidable given the codec). -/
+def CharrefSafeText (C : Codec) (s : PStr) : Bool := s.all (fun c => C.canEnc c || (!isC1 c && c < undef))
+
+/-- Attribute values: additionally no unencodable noncharacter or surrogate. -/
+def CharrefSafeAttr (C : Codec) (s : PStr) : Bool :=
+  s.all (fun c => C.canEnc c || (!isC1 c && c < undef && !isNonchar c && !isSurrogate c))
+
+/-- table fact (generated windows-1252 table): outside 0x80–0x9F, byte `n` of windows-1252 is U+`n` -/
+theorem cp1252_table :
+    (List.range 256).all (fun n => isC1 n || cp1252Decode.getD n undef == n) = true := by decide +kernel
+
+/-- table fact (generated `html.unescape` tables): every number it rewrites or drops is below 160 or a noncharacter -/
+theorem unescape_tables :
+    invalidCharrefs.all (fun kv => kv.1 < 160) = true ∧ invalidCodepoints.all (fun c => c < 160 || isNonchar c) = true := by
+  constructor <;> decide +kernel
+
+theorem textCharref_safe (orig : Nat → Option Nat) (n : Nat) (h1 : isC1 n = false) (h2 : n < undef) :
+    textCharref orig n = [n] := by
+  unfold textCharref
+  by_cases hn : n < 256
+  · have := List.all_eq_true.mp cp1252_table n (List.mem_range.mpr hn)
+    simp only [h1, Bool.false_or, beq_iff_eq] at this
+    simp only [hn, if_true, this, h2]
+  · simp only [hn, if_false, h2, if_true]
+
+theorem lookupCharref_none (n : Nat) : ∀ (l : List (Nat × PStr)), l.all (fun kv => kv.1 < 160) = true → 160 ≤ n →
+    lookupCharref n l = none := by
+  intro l
+  induction l with
+  | nil => intros; rfl
+  | cons kv rest ih =>
+    intro h hn
+    obtain ⟨k, v⟩ := kv
+    simp only [List.all_cons, Bool.and_eq_true, decide_eq_true_eq] at h
+    have : k ≠ n := by omega
+    simp only [lookupCharref, this, if_false]
+    exact ih h.2 hn
+
+theorem attrCharref_safe (n : Nat) (h0 : 160 ≤ n) (h2 : n < undef) (h3 : isNonchar n = false) (h4 : isSurrogate n = false) :
+    attrCharref n = [n] := by
+  unfold attrCharref
+  rw [lookupCharref_none n _ unescape_tables.1 h0]
+  have hs : ((0xD800 ≤ n && n ≤ 0xDFFF) || decide (n > 0x10FFFF)) = false := by
+    simp only [isSurrogate] at h4
+    simp only [undef] at h2
+    simp only [h4, Bool.false_or, decide_eq_false_iff_not]
+    omega
+  have hc : invalidCodepoints.contains n = false := by
+    cases hcon : invalidCodepoints.contains n
+    · rfl
+    · have hm := List.contains_iff_mem.mp hcon
+      have := List.all_eq_true.mp unescape_tables.2 n hm
+      simp only [h3, Bool.or_false, decide_eq_true_eq] at this
+      omega
+  simp only [hs, hc, Bool.false_eq_true, if_false]
+
+/-! ### attribute lookup, the `CHARSET_RE.sub` scanner, the finder -/
+
+theorem lookup_setAttr (k : PStr) (v : AttrVal) : ∀ (l : List (PStr × AttrVal)), lookupAttr k (setAttr k v l) = some v := by
+  intro l
+  induction l with
+  | nil => simp [setAttr, lookupAttr]
+  | cons a rest ih =>
+    obtain ⟨k', v'⟩ := a
+    by_cases hk : k' = k
+    · simp [setAttr, lookupAttr, hk]
+    · simp [setAttr, lookupAttr, hk, ih]
+
+theorem subGo_drop (repl : PStr → PStr) : ∀ (l : PStr) (b : Bool), subGo repl l.length b l = [] := by
+  intro l
+  induction l with
+  | nil => intro b; rfl
+  | cons c cs ih => intro b; simp only [List.length_cons, subGo]; exact ih _
+
+theorem matchAt_false_ne (c : Nat) (t : PStr) (h : c ≠ 59) : matchAt false (c :: t) = none := by
+  unfold matchAt
+  simp only [Bool.false_eq_true, if_false]
+  split
+  · rename_i heq; cases heq; exact absurd rfl h
+  · rfl
+
+theorem subGo_plain (repl : PStr → PStr) : ∀ (m rest : PStr), (∀ c ∈ m, c ≠ 59 ∧ c ≠ 10) →
+    subGo repl 0 false (m ++ rest) = m ++ subGo repl 0 false rest := by
+  intro m
+  induction m with
+  | nil => intro rest _; rfl
+  | cons c cs ih =>
+    intro rest h
+    have hc := h c (by simp)
+    have h10 : (c == 10) = false := by simp [hc.2]
+    simp only [List.cons_append, subGo, matchAt_false_ne c _ hc.1, h10, Bool.and_false]
+    rw [ih rest (fun x hx => h x (by simp [hx]))]
+
+/-- a media type as it stands before the `;`: no `;`, no line feed, and its first character is neither white space nor
+    one the live pattern accepts for the `c` of `charset` -/
+def MimeLike (m : PStr) : Prop :=
+  (∀ c ∈ m, c ≠ 59 ∧ c ≠ 10) ∧ ∃ c cs, m = c :: cs ∧ isReSpace c = false ∧ (charsetReLiteral.headD []).contains c = false
+
+/-- the key `; charset=` is accepted by the live pattern, whatever follows (as long as the value does not begin with
+    white space, which the tolerant pattern counts to the key) -/
+theorem key_accepted (old : PStr) (h : old.dropWhile isReSpace = old) : matchKey (ofS " charset=" ++ old) = some old := by
+  simp [matchKey, ofS, List.dropWhile, isReSpace, reWhitespace, charsetReSpaceTolerant, charsetReLiteral, matchClasses, h]
+
+theorem matchClasses_head_none (cls : List Nat) (more : List (List Nat)) (c : Nat) (t : PStr)
+    (h : cls.contains c = false) : matchClasses (cls :: more) (c :: t) = none := by
+  rw [matchClasses]
+  simp only [h, Bool.false_eq_true, if_false]
+
+theorem takeWhile_all (p : Nat → Bool) (l : PStr) (h : ∀ x ∈ l, p x = true) : l.takeWhile p = l := by
+  have := List.takeWhile_append_of_pos (l₂ := []) h
+  simpa using this
+
+/-- a charset name as it can stand in a declaration: ASCII, no white space, none of the characters that end the
+    detector's group -/
+def NameLike (e : PStr) : Prop := ∀ c ∈ e, c < 128 ∧ isTerminator c = false ∧ isAsciiSpace c = false
+
+theorem takeWhile_name (e rest : PStr) (h : NameLike e) :
+    (e ++ 34 :: rest).takeWhile (fun c => !isTerminator c) = e := by
+  rw [List.takeWhile_append_of_pos (fun a ha => by simp [(h a ha).2.1])]
+  simp [List.takeWhile, isTerminator]
+
+theorem declValue_name (e rest : PStr) (h : NameLike e) : declValue (e ++ 34 :: rest) = some e := by
+  simp [declValue, takeWhile_name e rest h]
+
+theorem ascii_prefix (e : PStr) (he : NameLike e) (lit : PStr) (hl : lit.all (fun c => c < 128) = true) :
+    ∀ c ∈ lit ++ e ++ [34], c < 128 := by
+  intro c hc
+  simp only [List.mem_append] at hc
+  rcases hc with (hc | hc) | hc
+  · have := List.all_eq_true.mp hl c hc; simpa using this
+  · exact (he c hc).1
+  · simp at hc; omega
+
 end BS.EncodingOut
